@@ -58,6 +58,16 @@ pub mod asynchronous_codec { pub use super::{FramedRead, FramedWrite}; }
 /// fair queue over the read halves: `next` yields ANY (peer, item) pair, or None; ghost log
 pub struct FairQueue<S, K> { pub log: Ghost<Seq<Option<(K, CodecResult<Message>)>>>, pub _t: core::marker::PhantomData<S> }
 impl<S, K> FairQueue<S, K> {
+    /// a new queue has yielded nothing and holds no stream (the sharing of `inner` between the queue and the backend
+    /// is NOT modelled: the backend gets its own empty stream map)
+    #[verifier::external_body]
+    pub fn new(block_on_no_clients: bool) -> (r: Self)
+        ensures r.log@ == Seq::<Option<(K, CodecResult<Message>)>>::empty(),
+    { unimplemented!() }
+    #[verifier::external_body]
+    pub fn inner(&self) -> (r: Arc<Mutex<QueueInner<S, K>>>)
+        ensures r.inner.streams@ == Map::<K, S>::empty(),
+    { unimplemented!() }
     #[verifier::external_body]
     pub fn next(&mut self) -> (r: Option<(K, CodecResult<Message>)>)
         ensures final(self).log@ == old(self).log@.push(r),
@@ -79,6 +89,9 @@ impl<S, K> QueueInner<S, K> {
 /// parking_lot::Mutex as plain ownership (sequential scope): lock() is a mutable borrow of the content
 pub struct Mutex<T> { pub inner: T }
 impl<T> Mutex<T> {
+    pub fn new(t: T) -> (r: Self)
+        ensures r.inner == t,
+    { Mutex { inner: t } }
     #[verifier::external_body]
     pub fn lock(&mut self) -> (r: &mut T)
         ensures *r == old(self).inner, final(self).inner == *final(r),
@@ -103,6 +116,10 @@ pub struct SegQueue<T> { _t: core::marker::PhantomData<T> }
 impl<T> SegQueue<T> {
     pub uninterp spec fn view(&self) -> Seq<T>;
     #[verifier::external_body]
+    pub fn new() -> (r: Self)
+        ensures r@ == Seq::<T>::empty(),
+    { unimplemented!() }
+    #[verifier::external_body]
     pub fn pop(&mut self) -> (r: Option<T>)
         ensures
             old(self)@.len() == 0 ==> r is None && final(self)@ == old(self)@,
@@ -123,6 +140,14 @@ pub mod scc {
     pub struct HashMap<K, V> { _t: core::marker::PhantomData<(K, V)> }
     impl<K, V> HashMap<K, V> {
         pub uninterp spec fn view(&self) -> Map<K, V>;
+        #[verifier::external_body]
+        pub fn new() -> (r: Self)
+            ensures r@ == Map::<K, V>::empty(),
+        { unimplemented!() }
+        #[verifier::external_body]
+        pub fn clear_sync(&mut self)
+            ensures final(self)@ == Map::<K, V>::empty(),
+        { unimplemented!() }
         #[verifier::external_body]
         pub fn get_async(&mut self, k: &K) -> (r: Option<&mut V>)
             ensures
